@@ -287,6 +287,7 @@ def run_shard(spec, ctx):
 
             BFm = ns.bf3file
             codes = yieldrun.code_objects_of(BFm, BFm.Bf3File, BFm.Bf3Component, ns.bytes_reader.BytesReader, ns.plugin.AES128Proxy, ns.aes.AESModeOfOperationCBC)
+            codes += [c_ for c_ in yieldrun.code_objects_of_module(ns.bf3file, ns.bytes_reader, ns.crypto, ns.plugin) if c_ not in codes]  # module-level helpers and every class of these modules
             total = 0
             for rnd in range(spec["rounds"]):
                 nthreads = (2, 3)[rnd % 2]
